@@ -4,7 +4,7 @@
 import struct
 
 from .requests import rlp_encode
-from ..oracle.hashes import keccak256, sha256_midstate, sha256_full
+from ..oracle.hashes import keccak256, sha256_midstate, sha256_full, sha256_from_midstate
 
 
 def rlp_payload_len(items):
@@ -23,6 +23,16 @@ def gen_coinbase(rng, small=False):
         split = max_split
     comp = struct.pack(">Q", split) + sha256_midstate(t[:split]) + t[split:]
     h = sha256_full(sha256_full(t))[::-1]
+    if not small and rng.random() < 0.08:
+        # a compressed coinbase whose head stands for a lot of data: the count of bytes
+        # already hashed is a 64-bit field (the chaining value is what it is - nobody can
+        # tell which data led to it); the transaction's length enters its hash
+        count = rng.choice([2**29 - 64, 2**29, 2**29 + 64, 2**31, 2**32 - 64, 2**32, 2**32 + 64,
+                            2**40, 2**56, 2**60])
+        mid = rng.randbytes(32)
+        tail = t[split:]
+        comp = struct.pack(">Q", count) + mid + tail
+        h = sha256_full(sha256_from_midstate(mid, count, tail))[::-1]
     return comp, h
 
 
